@@ -149,7 +149,13 @@ func (s *c14state) conformantMessage(c *core.Ctx, maxPayload int) (b []byte, nam
 func runC14(c *core.Ctx) {
 	t := c.T
 	withTx := t.Chance(1, 2)
+	fd, endF := nw.StartF(c) // Engine F phase: the node's goroutines under the statement scheduler
+	defer endF()
 	w := nw.New(c, nw.Options{TxManager: withTx})
+	w.FD = fd
+	if fd != nil {
+		w.Early = 15
+	}
 	p := verifiedNode(c, w, false)
 	if !p.Node.Verified() || !p.Node.IsReady() {
 		c.Fail("c14.setup", "not-verified", "the node did not verify against the default scripted peer")
@@ -241,6 +247,6 @@ func init() {
 		FaultKinds:   []string{"fragmentation", "delivery-delay"},
 		ProbeNames:   []string{"state:block-requested", "pong-received", "may-disconnect-message", "orderly-close-after-may-disconnect", "sent:headers", "sent:inv", "sent:tx", "sent:extmsg", "sent:block", "sent:addr", "sent:unhandled", "sent:protoconf", "sent:reject"},
 		Run:          runC14,
-		QuickSeconds: 20, ThoroughSeconds: 600, MinRuns: 300, BatchSize: 50, RunTimeoutSeconds: 180,
+		QuickSeconds: 20, ThoroughSeconds: 600, MinRuns: 300, BatchSize: 50, RunTimeoutSeconds: 180, FQuickSeconds: 12, FThoroughSeconds: 300,
 	})
 }
